@@ -104,6 +104,11 @@ def validArr (s : JStr) : Bool := startsWithBracket s
 def validClass (s : JStr) : Bool :=
   if startsWithBracket s then true else (splitOn SLASH s).all validUnqualified
 
+/-- `FieldDescriptor::check_valid`, `MethodDescriptor::check_valid`, `ReturnDescriptor::check_valid`: `Ok(())` with
+a `TODO: parse the desc and fail if invalid`; the descriptor newtypes accept every string, validation happens in
+`parse()` only -/
+def validDescriptorNewtype (_ : JStr) : Bool := true
+
 /-- `ArrClassNameSlice::dimension`: `take_while(== '[').count() as u8`, then `assert_ne!(dimension, 0)`; `none` = panic -/
 def countBrackets : JStr → Nat
   | [] => 0
